@@ -537,6 +537,9 @@ func main() {
 	case "time":
 		timeMain(f)
 		return
+	case "ndjson":
+		ndjsonMain(f)
+		return
 	}
 	out := hx.OpenOut(f.Out)
 	defer out.Close()
